@@ -89,6 +89,15 @@ CondProgs ==
                P("cc-after-" \o ToString(i), pre \o Obs(Cond(c, CastE(S32, th), NumN(7))) \o << Set(Rd, CastE(S32, th)) >>, <<"constcond", "after">>),
                P("cc-both-" \o ToString(i), pre \o Obs(Cond(c, CastE(S32, th), Bin("+", CastE(S32, th), NumN(1)))), <<"constcond", "both">>) >>])
 
+\* the arms of a constant-condition ?: have different types: the result has their COMMON type (known finding KF-D10c)
+ArmPairs == << <<Un("-", NumN(1)), HexN(0, "U")>>, <<HexN(0, "U"), Un("-", NumN(1))>>, <<Un("-", NumN(1)), Rss>>, <<Rss, Un("-", NumN(1))>>,
+               <<Var("a"), HexN(1, "U")>>, <<CastE(S8, Var("a")), Lit(FromNat(64, 5), "dec", "ULL", FALSE)>> >>
+ArmTypeProgs ==
+    [i \in 1..(Len(ArmPairs) * 2) |->
+        LET pr == ArmPairs[((i - 1) % Len(ArmPairs)) + 1]
+            c == IF i <= Len(ArmPairs) THEN NumN(1) ELSE Bin("==", NumN(1), NumN(0))
+        IN  P("cc-armtype-" \o ToString(i), << Decl(S32, "a", Rt) >> \o Obs(Cond(c, pr[1], pr[2])), <<"constcond", "armtype">>)]
+
 \* sizeof of every operand kind
 SizeofProgs ==
     [i \in 1..14 |->
@@ -97,7 +106,7 @@ SizeofProgs ==
                      Bin("==", Rs, Rt), Bin("<", Var("c"), Var("c")), Bin("&&", Var("a"), Var("c")), Un("!", Var("c")) >>)[i]
         IN  P("szof-" \o ToString(i), << Decl(S16, "a", Rt), Decl(S64, "c", Rss) >> \o Obs(SizeofE(e)) \o << Set(Rd, Var("a")) >>, <<"sizeof">>)]
 
-Programs == LitProgs \o FoldProgs \o Fold2Progs \o CondProgs \o SizeofProgs
+Programs == LitProgs \o FoldProgs \o Fold2Progs \o CondProgs \o ArmTypeProgs \o SizeofProgs
 
 VARIABLE x
 Init == x = JsonSerialize(IOEnv.GEN_OUT, Programs)
